@@ -20,6 +20,7 @@
 //              measured on the fault-free reference run of the same seed, whose prefix a faulty run shares.
 //              quick tier: same menu without N and c and with only two payload replacements.
 //     |F| = 2: (n=7) every pair x the cross product of a reduced menu per party (pair_menu below).
+//   Schedules: round robin; thorough adds reverse round robin and a seeded pseudo-random baton order for (4,1), core menu.
 // Oracle (parent, GMP only; deviating parties are excluded, honest ones never): every honest party succeeds; equal QUAL
 //   containing all honest parties; equal commitments and public key y; g^x_i h^x'_i = prod_{j in QUAL} prod_k
 //   C_jk^{(i+1)^k}; g^x_i = v_i (GJKR); EVERY (t+1)-subset of the honest shares interpolates (own Lagrange code,
@@ -740,6 +741,17 @@ int main(int argc, char **argv)
 		}
 		else
 			for (c.variant = 0; c.variant < variants; c.variant++) run_config(c, level, pair_size);
+		// other schedules (thorough, (4,1)): reverse round robin and a seeded pseudo-random choice of the next party
+		if (thorough && c.n == 4 && c.t == 1 && !A.has("level"))
+			for (int sch = 1; sch <= 2; sch++)
+			{
+				Cfg cs = c;
+				cs.sched = sch, cs.variant = 0;
+				if (proto == "pvss")
+					for (cs.dealer = 0; cs.dealer < cs.n; cs.dealer++) cs.sigma_kind = 0, run_config(cs, 1, pair_size);
+				else
+					run_config(cs, proto == "cdkg" ? 0 : 1, pair_size);
+			}
 	}
 	rep.bound = proto + (thorough ? ": n<=7" : ": n<=5") + ", |F|<=t, one deviation per faulty party";
 	for (std::map<std::string, uint64_t>::iterator it = g_kind_count.begin(); it != g_kind_count.end(); ++it) rep.counters["dev_" + it->first] = it->second;
